@@ -403,10 +403,25 @@ func confirmReplay(a OrchArgs, path string, race bool) (bool, string) {
 	if rf, err := ReadReplay(path); err == nil {
 		race, instr = rf.Race, rf.Instr
 	}
-	cmd := exec.Command(a.binFor(race, instr), "replay", path)
-	cmd.Env = workerEnv(race, "")
-	out, err := cmd.CombinedOutput()
-	return exitCodeOf(err) == 1, tail(string(out), 3000)
+	// C15's subject includes Go's map iteration order, which no seam controls: a divergence that
+	// depends on it shows in some fresh processes and not in others. Such a replay is attempted up to
+	// six times; one reproduction is a reproduction (a replay reports only what it observes again on
+	// the real code, so more attempts cannot create an alarm where the property holds).
+	attempts := 1
+	if a.Prop == "C15" {
+		attempts = 6
+	}
+	var out []byte
+	for i := 0; i < attempts; i++ {
+		cmd := exec.Command(a.binFor(race, instr), "replay", path)
+		cmd.Env = workerEnv(race, "")
+		var err error
+		out, err = cmd.CombinedOutput()
+		if exitCodeOf(err) == 1 {
+			return true, tail(string(out), 3000)
+		}
+	}
+	return false, tail(string(out), 3000)
 }
 
 // runOne executes a single run (by seed or by tape file) in a fresh process and reports how it ended.
